@@ -165,3 +165,55 @@ Proof.
     destruct (pt_required p); [discriminate|]. injection Hx as <-. unfold wired_point in Hw. cbn in Hw.
     right. split; [exact Hw|right; exact Hnone].
 Qed.
+
+(* ---- the same at run level under the extended semantics (Model/FactoryX.v: Init methods that call back into the
+   factory, post-processors that short-circuit instantiation; Proofs/FactoryXWiring.v).  Additional side conditions:
+   no component has more than 100 points, the Init methods of the post-processor components issue no lookups, and
+   the holder is not listed as short-circuited (such a component is not populated at all). ------------------- *)
+From IocVerif Require Import Model.FactoryX Proofs.FactoryXLife Proofs.FactoryXNoPanic Proofs.FactoryXWiring.
+
+Theorem c06_wired_slice_extended : forall s x o st h c k p,
+  small_points s -> run_xt repaired s x = (o, Ok st) ->
+  procs_pointless_b (normalise repaired s) = true -> procs_quiet_b (normalise repaired s) x = true ->
+  stages_ok_b (normalise repaired s) = true ->
+  alookup h (L1 (reg st)) <> None -> get_comp (s_pop s) h = Some c -> never_short x h -> nth_error (c_points c) k = Some p ->
+  unnamed p -> pt_target p <> TOther -> pt_slice p = true ->
+  (* every compatible, admitted component except the holder, exactly once, in name order ... *)
+  (map owner (field_of st h k) = providers_of (names_of (s_pop s)) (s_pop s) h p
+   /\ forallb (fun v => assignable (s_pop s) v (pt_target p)) (field_of st h k) = true)
+  (* ... or nothing at all, which is possible only for an optional point *)
+  \/ (field_of st h k = [] /\ (pt_required p = false \/ providers_of (names_of (s_pop s)) (s_pop s) h p = [])).
+Proof.
+  intros s x o st h c k p Hsm H Hpp Hq Hso Hpub Hc Hns Hk Hu Ht Hsl.
+  destruct (run_xt_wired s x o st Hsm H Hpp Hq Hso h c k p Hpub Hc Hns Hk) as [y0 [Hx Hw]].
+  unfold further_one in Hx. fold (resolved (names_of (s_pop s)) (s_pop s) h p) in Hx.
+  rewrite (resolved_unnamed _ _ _ _ Hu Ht), Hsl in Hx.
+  destruct (providers_of (names_of (s_pop s)) (s_pop s) h p) as [|a t] eqn:E.
+  - destruct (pt_required p); [discriminate|]. injection Hx as <-. unfold wired_point in Hw. cbn in Hw.
+    right. split; [exact Hw|right; reflexivity].
+  - cbv zeta in Hx. injection Hx as <-. unfold wired_point in Hw. cbn [map remove_nil] in Hw.
+    rewrite remove_nil_map_Some, Hsl in Hw.
+    destruct Hw as [[Ho Ha]|[Hf Hr]]; [left; split; assumption|right; split; [exact Hf|left; exact Hr]].
+Qed.
+
+Theorem c06_wired_single_extended : forall s x o st h c k p,
+  small_points s -> run_xt repaired s x = (o, Ok st) ->
+  procs_pointless_b (normalise repaired s) = true -> procs_quiet_b (normalise repaired s) x = true ->
+  stages_ok_b (normalise repaired s) = true ->
+  alookup h (L1 (reg st)) <> None -> get_comp (s_pop s) h = Some c -> never_short x h -> nth_error (c_points c) k = Some p ->
+  unnamed p -> pt_target p <> TOther -> pt_slice p = false ->
+  (exists n, In n (providers_of (names_of (s_pop s)) (s_pop s) h p) /\ map owner (field_of st h k) = [n])
+  \/ (field_of st h k = [] /\ (pt_required p = false \/ providers_of (names_of (s_pop s)) (s_pop s) h p = [])).
+Proof.
+  intros s x o st h c k p Hsm H Hpp Hq Hso Hpub Hc Hns Hk Hu Ht Hsl.
+  destruct (run_xt_wired s x o st Hsm H Hpp Hq Hso h c k p Hpub Hc Hns Hk) as [y0 [Hx Hw]].
+  unfold further_one in Hx. fold (resolved (names_of (s_pop s)) (s_pop s) h p) in Hx.
+  destruct (resolved (names_of (s_pop s)) (s_pop s) h p) as [l|] eqn:Er.
+  - destruct (c06_single _ _ _ _ _ Hu Ht Hsl Er) as [n [-> Hin]]. injection Hx as <-.
+    unfold wired_point in Hw. cbn [map remove_nil] in Hw. rewrite Hsl in Hw. cbn [firstn] in Hw.
+    destruct Hw as [[Ho _]|[Hf Hr]]; [left; exists n; split; assumption|right; split; [exact Hf|left; exact Hr]].
+  - assert (Hnone : providers_of (names_of (s_pop s)) (s_pop s) h p = []).
+    { rewrite (resolved_unnamed _ _ _ _ Hu Ht) in Er. destruct (providers_of _ _ _ _); [reflexivity|discriminate]. }
+    destruct (pt_required p); [discriminate|]. injection Hx as <-. unfold wired_point in Hw. cbn in Hw.
+    right. split; [exact Hw|right; exact Hnone].
+Qed.
